@@ -142,6 +142,7 @@ type compiler struct {
 	ExportName  string
 	Locals      *lookup
 	scope       []int
+	scopeTypes  []map[string]string // per open block: the types declared in it, name -> key in Globals
 	cur         *token
 	Imports     map[string]string // alias -> package
 	Optimize    bool
@@ -214,6 +215,17 @@ func (c *compiler) isLocal() bool {
 
 func (c *compiler) Begin() {
 	c.scope = append(c.scope, c.Locals.Len())
+	c.scopeTypes = append(c.scopeTypes, nil)
+}
+
+// localType returns the Globals key of the type declared under name in the innermost open block that declares one.
+func (c *compiler) localType(name string) (string, bool) {
+	for i := len(c.scopeTypes) - 1; i >= 0; i-- {
+		if key, ok := c.scopeTypes[i][name]; ok {
+			return key, true
+		}
+	}
+	return "", false
 }
 
 func (c *compiler) Shadow(key string) int {
@@ -228,6 +240,7 @@ func (c *compiler) End() {
 	b := c.Locals.Len()
 	a := c.scope[len(c.scope)-1]
 	c.scope = c.scope[:len(c.scope)-1]
+	c.scopeTypes = c.scopeTypes[:len(c.scopeTypes)-1]
 	c.Locals.Drop(b - a)
 	// for i := 0; i < b-a; i++ {
 	// 	c.Locals.Pop()
@@ -509,8 +522,8 @@ func (c *compiler) compile(tok *token) []instruction {
 		key := c.expPrefix(tok.Text)
 		if tok.Text == "$" {
 			res = append(res, instruction{Code: codeGlobalGet, A: reg(c.Globals.Index("$"))})
-		} else if c.isLocal() && c.Globals.Exists(c.FuncName+"."+tok.Text) {
-			res = append(res, instruction{Code: codeGlobalGet, A: reg(c.Globals.Index(c.FuncName + "." + tok.Text))})
+		} else if typeKey, ok := c.localType(tok.Text); ok {
+			res = append(res, instruction{Code: codeGlobalGet, A: reg(c.Globals.Index(typeKey))})
 		} else if c.Locals.Exists(tok.Text) {
 			res = append(res, instruction{Code: codeLocalGet, A: reg(c.Locals.Index(tok.Text))})
 		} else if c.Globals.Exists(key) {
@@ -852,8 +865,13 @@ func (c *compiler) compile(tok *token) []instruction {
 			// setStruct = codeLocalSet
 			// getStruct = codeLocalGet
 			// idx = c.Shadow(key)
+			name := key
 			key = c.FuncName + "." + key
 			idx = c.Globals.Index(key)
+			if c.scopeTypes[len(c.scopeTypes)-1] == nil {
+				c.scopeTypes[len(c.scopeTypes)-1] = map[string]string{}
+			}
+			c.scopeTypes[len(c.scopeTypes)-1][name] = key
 		} else {
 			key = c.expPrefix(key)
 			idx = c.Globals.Index(key)
